@@ -1,5 +1,5 @@
 // govc:pkg cep
-// govc:bound 3000 random greedy patterns (30000 with GOVC_BOUND=thorough) over <= 4 variables built from sequence, alternation, group, ?, *, +, {n}, {n,m} and PERMUTE (never matching the empty word) x every SKIP mode x one stream of <= 14 rows split over two interleaved partitions; DEFINE conditions on the current row only, once with disjoint and once with overlapping variables; no WITHIN expiry
+// govc:bound 10 directed pattern/stream pairs under every SKIP mode, then 3000 random greedy patterns (30000 with GOVC_BOUND=thorough) over <= 4 variables built from sequence, alternation, group, ?, *, +, {n}, {n,m} and PERMUTE (never matching the empty word) x every SKIP mode x one stream of <= 14 rows split over two interleaved partitions; DEFINE conditions on the current row only, once with disjoint and once with overlapping variables; no WITHIN expiry
 // Bounded stand-in (NOT a proof) for the NFA construction and the run bookkeeping (closures and recursion over pattern
 // trees, outside the contracts): the matches of a partition are exactly those of a reference matcher that works on the
 // pattern tree directly - starts leftmost-first under the SKIP rule, the longest match per start, MATCH_NUMBER 1,2,3..,
@@ -253,17 +253,48 @@ func TestGovcBounded_cep_reference_matcher(t *testing.T) {
 	rng := rand.New(rand.NewSource(15))
 	cases, fails := 0, 0
 	skips := []types.AfterMatchSkip{types.SkipPastLastRow, types.SkipToNextRow, types.SkipToFirst, types.SkipToLast, types.SkipToVariable}
-	for it := 0; it < iters; it++ {
+	// directed cases first (shapes a uniform generator rarely produces): a short alternative that starts later than a long
+	// one still running, an accepting prefix whose continuation fails, optional tails; each under every SKIP mode
+	L := func(i int) *govcPat { return &govcPat{kind: 0, sym: i} }
+	S := func(ks ...*govcPat) *govcPat { return &govcPat{kind: 1, kids: ks} }
+	Alt := func(ks ...*govcPat) *govcPat { return &govcPat{kind: 2, kids: ks} }
+	R := func(k *govcPat, min, max int) *govcPat { return &govcPat{kind: 3, kids: []*govcPat{k}, min: min, max: max} }
+	type directed struct {
+		pat *govcPat
+		ks  []int
+	}
+	dirs := []directed{
+		{Alt(S(L(0), L(1), L(2)), L(1)), []int{1, 2, 3}},
+		{Alt(S(L(0), L(1), L(2)), L(1)), []int{1, 2, 0, 1, 2, 3}},
+		{Alt(S(L(0), L(1)), S(L(0), L(1), L(2), L(3)), S(L(1), L(2))), []int{1, 2, 3, 0}},
+		{R(S(L(0), L(1)), 1, -1), []int{1, 2, 1, 0}},
+		{R(S(L(0), L(1)), 1, -1), []int{1, 2, 1, 2, 1, 0, 1, 2}},
+		{S(L(0), R(S(L(1), L(2)), 0, -1)), []int{1, 2, 0}},
+		{S(L(0), R(S(L(1), L(2)), 0, 1)), []int{1, 2, 0, 1, 2, 3}},
+		{S(L(0), R(L(1), 1, -1), R(L(2), 0, 1)), []int{1, 2, 2, 3, 1, 2}},
+		{Alt(S(L(0), R(L(1), 1, -1), L(2)), S(L(1), L(1))), []int{1, 2, 2, 2, 0}},
+		{&govcPat{kind: 5, kids: []*govcPat{L(0), L(1), L(2)}}, []int{2, 3, 1, 3, 1, 2, 2, 1, 3}},
+	}
+	nDirected := len(dirs) * len(skips)
+	for it := 0; it < iters+nDirected; it++ {
 		nsym := 1 + rng.Intn(4)
 		var pat *govcPat
-		for {
-			pat = govcGenPat(rng, 3, nsym)
-			if !govcEnds(pat, nil, map[int]bool{0: true})[0] {
-				break
+		var fixed []int
+		if it < nDirected {
+			pat, fixed, nsym = dirs[it/len(skips)].pat, dirs[it/len(skips)].ks, 4
+		} else {
+			for {
+				pat = govcGenPat(rng, 3, nsym)
+				if !govcEnds(pat, nil, map[int]bool{0: true})[0] {
+					break
+				}
 			}
 		}
-		overlapping := it%2 == 1
+		overlapping := it >= nDirected && it%2 == 1
 		skip := skips[rng.Intn(len(skips))]
+		if it < nDirected {
+			skip = skips[it%len(skips)]
+		}
 		if overlapping && skip >= types.SkipToFirst {
 			skip = types.AfterMatchSkip(rng.Intn(2))
 		}
@@ -287,9 +318,13 @@ func TestGovcBounded_cep_reference_matcher(t *testing.T) {
 		n := 3 + rng.Intn(12)
 		var rows []map[string]any
 		var parts []string
-		for i := 0; i < n; i++ {
+		for i := 0; i < n && fixed == nil; i++ {
 			rows = append(rows, map[string]any{"ts": i + 1, "k": rng.Intn(nsym + 1)})
 			parts = append(parts, []string{"p", "q"}[rng.Intn(2)])
+		}
+		for i, k := range fixed {
+			rows = append(rows, map[string]any{"ts": i + 1, "k": k})
+			parts = append(parts, "p")
 		}
 		cases++
 		label := fmt.Sprintf("pattern=%s skip=%d/%s overlapping=%v rows=%v parts=%v", pat, skip, govcSyms[skipSym], overlapping, rows, parts)
